@@ -2452,6 +2452,17 @@ def m_map_iter(ex, m, args, callee):
     return MapIter(r, {'values_mut': 'values'}.get(k, k))
 
 
+@model(r'^<Vec(<.*>)? as Extend<.*>>::extend$')
+def m_vec_extend(ex, m, args, callee):
+    r = innermost_ref(args[0])
+    v = load(r)
+    if not isinstance(v, Arr):
+        raise Unmodelled('Vec::extend on %r' % (v,))
+    for item in collect_items(ex, args[1]):
+        v.fields.append(item)
+    return Tup([])
+
+
 @model(r'^<(BTreeMap|HashMap|BTreeSet|HashSet)<.*> as Extend<.*>>::extend$')
 def m_map_extend(ex, m, args, callee):
     """insert every item of the iterator (later items overwrite earlier keys, as std does)"""
